@@ -830,6 +830,431 @@ def oracle_ee(chk, n_cases):
         check_ee(chk, data, fr, kind, centre)
 
 
+# ------------------------------------------------------------------------------------------------ round 5: generator audit
+def _r5_layout(rng, data, kinds=("F", "strided", "reversed", "readonly", "broadcast")):
+    kind = rng.choice(list(kinds))
+    if kind == "F":
+        return numpy.asfortranarray(data), kind
+    if kind == "strided":
+        big = numpy.zeros(data.shape[:-2] + (2 * data.shape[-2], 3 * data.shape[-1]), dtype=data.dtype)
+        big[..., ::2, 1::3] = data
+        return big[..., ::2, 1::3], kind
+    if kind == "reversed":
+        return numpy.ascontiguousarray(data[..., ::-1, ::-1])[..., ::-1, ::-1], kind
+    if kind == "broadcast":                          # the same frame three times: a zero-stride, read-only stack
+        return numpy.broadcast_to(data, (3,) + data.shape), kind
+    out = numpy.array(data, copy=True)
+    out.setflags(write=False)
+    return out, kind
+
+
+def oracle_round5_bin(chk, quick):
+    """binImgs on input classes oracle_bin never draws: bin factors up to the whole frame and given as float / NumPy scalars, integers
+    beyond 2^53 (a float accumulator loses them), complex fields, big-endian arrays, read-only and broadcast arrays, frames of 2^16 …
+    2^20 pixels, stacks deeper than 2^8 frames, rank-5 stacks"""
+    ip, _, _ = _lib()
+    rng = chk.rng
+    for it in range(36 if quick else 600):
+        chk.oracle_cases += 1
+        kind = ["int64-big", "uint64-big", "big-endian-f8", "big-endian-i4", "readonly", "broadcast", "large-n", "whole-frame", "rank5"][it % 9]
+        n = rng.choice([1, 2, 2, 3, 4, 5])
+        R, C = rng.randint(1, 5), rng.randint(1, 5)
+        lead = () if rng.random() < 0.5 else (rng.randint(1, 3),)
+        if kind == "large-n":
+            n = rng.choice([7, 10, 16, 32])
+            R, C = rng.randint(1, 3), rng.randint(1, 3)
+        elif kind == "whole-frame":                  # one output pixel per image: n = the frame size
+            n = rng.choice([2, 3, 8, 13, 32])
+            R = C = 1
+        elif kind == "rank5":
+            lead = (rng.randint(1, 2), rng.randint(1, 3), rng.randint(1, 2))
+        shape = lead + (R * n, C * n)
+        if kind == "int64-big":                      # every block sum < 2^62, every pixel beyond the 53 bits of a double, odd
+            data = numpy.array([rng.randrange(2 ** 53, 2 ** 62 // (n * n)) | 1 for _ in range(int(numpy.prod(shape)))], dtype=numpy.int64).reshape(shape)
+        elif kind == "uint64-big":
+            data = numpy.array([rng.randrange(2 ** 53, 2 ** 64 // (n * n)) | 1 for _ in range(int(numpy.prod(shape)))], dtype=numpy.uint64).reshape(shape)
+        elif kind == "big-endian-f8":
+            data = (_ints(rng, shape, 0, 4000) / 8.0).astype(">f8")
+        elif kind == "big-endian-i4":
+            data = _ints(rng, shape, -4000, 4000).astype(">i4")
+        else:
+            data = _ints(rng, shape, 0, 4000).astype(rng.choice(["int64", "float64", "int32", "float32"]))
+        layout = "C"
+        if kind in ("readonly", "broadcast"):
+            if kind == "broadcast" and data.ndim > 2:
+                data = data[0]
+            data, layout = _r5_layout(rng, data, (kind,))
+        chk.case(("oracle", "bin5", kind, data.shape, n, str(data.dtype), it))
+        chk.count("oracle:bin:kind:" + kind)
+        check_bin(chk, data, n)
+        # the same bin factor written as a float or a NumPy scalar is the same binning
+        if it % 3 == 0:
+            base, err0 = _call(ip.binImgs, data, n)
+            for nm, nv in (("float", float(n)), ("numpy.int64", numpy.int64(n)), ("numpy.float64", numpy.float64(n)), ("numpy.int32", numpy.int32(n)),
+                           ("numpy.uint8", numpy.uint8(n)), ("0-d array", numpy.array(n))):
+                got, err = _call(ip.binImgs, data, nv)
+                if err0 is None and (err or got.shape != base.shape or got.dtype != base.dtype or not numpy.array_equal(got, base)):
+                    chk.fail("bin:argform:n-" + nm, "binImgs(shape %s %s, n=%s(%d)) %s; with the Python int %d it is the block sums"
+                             % (data.shape, data.dtype, nm, n, ("raised " + err) if err else "differs (shape %s dtype %s)" % (got.shape, got.dtype), n),
+                             {"case": "bin-argform", "function": "binImgs", "shape": list(data.shape), "n": n, "n_type": nm, "dtype": str(data.dtype), "data": data.tolist()})
+    # complex fields (integer-valued real and imaginary parts: every partial sum is exact)
+    for it in range(8 if quick else 100):
+        chk.oracle_cases += 1
+        n = rng.choice([1, 2, 3, 4])
+        R, C = rng.randint(1, 4), rng.randint(1, 4)
+        lead = () if it % 2 else (rng.randint(1, 3),)
+        shape = lead + (R * n, C * n)
+        re, im = _ints(rng, shape, -4000, 4000), _ints(rng, shape, -4000, 4000)
+        cdt = ["complex128", "complex64"][it % 4 == 3]
+        data = (re + 1j * im).astype(cdt)
+        chk.case(("oracle", "bin5", "complex", shape, n, cdt, it))
+        chk.count("oracle:bin:kind:" + cdt)
+        want = re.reshape(lead + (R, n, C, n)).sum(axis=(-3, -1)) + 1j * im.reshape(lead + (R, n, C, n)).sum(axis=(-3, -1))
+        keep = data.copy()
+        got, err = _call(ip.binImgs, data, n)
+        rep = {"case": "bin-complex", "function": "binImgs", "shape": list(shape), "n": n, "dtype": cdt, "re": re.tolist(), "im": im.tolist()}
+        path = "2d" if not lead else "nd"
+        if err or got.shape != want.shape or not numpy.iscomplexobj(got) or not numpy.array_equal(got, want):
+            chk.fail("bin:%s:block-sum:complex" % path, "binImgs(%s field of shape %s, n=%d) %s" % (
+                cdt, shape, n, ("raised " + err) if err else "is not the %dx%d block sums of real and imaginary part (first: %r, block sum %r)"
+                % (n, n, got.ravel()[0].item() if got.size else None, want.ravel()[0].item() if want.size else None)), rep)
+        if not numpy.array_equal(keep, data):
+            chk.fail("bin:%s:mutates-input" % path, "binImgs modified its (complex) input (shape %s, n=%d)" % (shape, n), rep)
+    # frames of 2^16 … 2^20 pixels, deep stacks: integer-valued data, reference = reshape-and-sum in int64 (exact)
+    big = [((512, 512), 2), ((256, 256), 4), ((513, 129), 3), ((300, 260), 20), ((1024, 256), 8), ((300, 4, 6), 2), ((1030, 3, 3), 3), ((2, 258, 258), 3)] if quick else \
+        [((512, 512), 2), ((256, 256), 4), ((257 * 3, 255 * 3), 3), ((300, 260), 20), ((1024, 1024), 2), ((2048, 512), 8), ((300, 4, 6), 2),
+         ((1030, 3, 3), 3), ((70000, 2, 2), 2), ((2, 258, 258), 3), ((3, 2, 512, 128), 4), ((65, 65, 4, 4), 2)]
+    for shape, n in big:
+        for dt in (["int64", "float64", "uint16", "float32"] if not quick else [rng.choice(["int64", "int32"]), rng.choice(["float64", "float32", "uint16"])]):
+            chk.oracle_cases += 1
+            hi = {"uint16": 65535 // (n * n), "float32": 2 ** 24 // (n * n)}.get(dt, 10 ** 6)
+            nprng = numpy.random.default_rng(rng.getrandbits(32))
+            vals = nprng.integers(0, hi, size=shape, endpoint=True)
+            data = vals.astype(dt)
+            lead = shape[:-2]
+            R, C = shape[-2] // n, shape[-1] // n
+            want = vals.reshape(lead + (R, n, C, n)).sum(axis=(-3, -1))
+            chk.case(("oracle", "bin5", "large", shape, n, dt))
+            chk.count("oracle:bin:large:" + ("deep-stack" if len(shape) > 2 and shape[0] > 256 else "frame>=2^16" if shape[-1] * shape[-2] >= 2 ** 16 else "other"))
+            keep = data.copy()
+            got, err = _call(ip.binImgs, data, n)
+            rep = {"case": "bin-large", "function": "binImgs", "shape": list(shape), "n": n, "dtype": dt,
+                   "data": "numpy.random.default_rng(seed).integers(0, %d, size=shape, endpoint=True).astype(dtype)" % hi}
+            path = "2d" if not lead else "nd"
+            if err or got.shape != want.shape or not numpy.array_equal(got.astype(numpy.int64), want) or not numpy.array_equal(got, want):
+                w = None if (err or got.shape != want.shape) else numpy.argwhere(got != want)[0].tolist()
+                chk.fail("bin:%s:block-sum:large" % path, "binImgs(%s array of shape %s, n=%d) %s" % (
+                    dt, shape, n, ("raised " + err) if err else ("has shape %s, expected %s" % (got.shape, want.shape)) if w is None else
+                    "%s = %r but the %dx%d block sums to %d (%d of %d outputs wrong)" % (w, got[tuple(w)].item(), n, n, int(want[tuple(w)]), int((got != want).sum()), want.size)), rep)
+            elif not numpy.array_equal(keep, data):
+                chk.fail("bin:%s:mutates-input" % path, "binImgs modified its input (shape %s, n=%d)" % (shape, n), rep)
+
+
+ZT_BIG = 1e-9        # zoom of 40…200-sample arrays: observed <= 8.9e-15 (nodes), 3.2e-15·scale (polynomial), quick seeds 0-15 and thorough seed 0
+
+
+def oracle_round5_zoom(chk, quick):
+    """zoom / zoom_rbs on input classes oracle_zoom never draws: the target size as list / array / NumPy integer, the default and the
+    keyword spelling of the order, float32 and non-C-contiguous / read-only arrays, arrays of 40 … 100 samples, target grids that
+    are a SUBSET of the old nodes (decimation, down to 2 and 1 samples), and the input array left unchanged"""
+    ip, _, _ = _lib()
+    rng = chk.rng
+    for it in range(24 if quick else 600):
+        for entry in ("zoom", "zoom_rbs"):
+            fn = getattr(ip, entry)
+            chk.oracle_cases += 1
+            order = (1, 3, 5)[it % 3]
+            n = rng.randint(order + 1, 12)
+            nprng = numpy.random.default_rng(rng.getrandbits(32))
+            a = nprng.uniform(-1, 1, (n, n))
+            chk.case(("oracle", "zoom5", entry, order, n, it))
+            chk.count("oracle:zoom5:%s:order%d" % (entry, order))
+            key = "zoom:%s:" % entry
+            rep = {"case": "zoom5", "function": entry, "order": order, "a": a.tolist()}
+            keep = a.copy()
+            # --- the target size in the spellings a caller holds it
+            sx, sy = rng.randint(2, 20), rng.randint(2, 20)
+            base, err0 = _call(fn, a, (sx, sy), order)
+            if err0:
+                chk.fail(key + "raises", "%s(%dx%d array, %r, order=%d) raised %s" % (entry, n, n, (sx, sy), order, err0), dict(rep, size=[sx, sy]))
+                continue
+            forms = [("list", [sx, sy]), ("ndarray", numpy.array([sx, sy])), ("numpy-int64-tuple", (numpy.int64(sx), numpy.int64(sy))),
+                     ("numpy-int32-tuple", (numpy.int32(sx), numpy.int32(sy)))]
+            for nm, size in forms:
+                got, err = _call(fn, a, size, order)
+                if err or got.shape != (sx, sy) or not numpy.array_equal(got, base):
+                    chk.fail(key + "argform:size-" + nm, "%s(a, %s %r, order=%d) %s; with the tuple %r it has shape %s" % (
+                        entry, nm, [sx, sy], order, ("raised " + err) if err else "has shape %s / other values" % (got.shape,), (sx, sy), base.shape),
+                        dict(rep, size=[sx, sy], size_form=nm))
+            sq, errq = _call(fn, a, (sx, sx), order)
+            for nm, size in (("int", sx), ("numpy-int64", numpy.int64(sx)), ("numpy-int32", numpy.int32(sx)), ("0-d array", numpy.array(sx))):
+                got, err = _call(fn, a, size, order)
+                if errq is None and (err or got.shape != (sx, sx) or not numpy.array_equal(got, sq)):
+                    chk.fail(key + "argform:size-" + nm, "%s(a, %s(%d), order=%d) %s; with the tuple %r it has shape %s" % (
+                        entry, nm, sx, order, ("raised " + err) if err else "has shape %s / other values" % (got.shape,), (sx, sx), sq.shape),
+                        dict(rep, size=sx, size_form=nm))
+            # --- the order as keyword / NumPy integer; the documented default order is 3
+            for nm, kw in (("keyword", dict(order=order)), ("numpy-int64", dict(order=numpy.int64(order)))):
+                got, err = _call(fn, a, (sx, sy), **kw)
+                if err or not numpy.array_equal(got, base):
+                    chk.fail(key + "argform:order-" + nm, "%s(a, %r, order=%d given as %s) %s" % (
+                        entry, (sx, sy), order, nm, ("raised " + err) if err else "differs from the positional call"), dict(rep, size=[sx, sy], order_form=nm))
+            if n >= 4:
+                c = _poly(nprng, 3)
+                grid = numpy.arange(n)
+                pa = _polyval(c, grid, grid, n - 1)
+                psize = (rng.randint(n + 1, 25), rng.randint(n + 1, 25))
+                got, err = _call(fn, pa, psize)
+                exp = _polyval(c, numpy.linspace(0, n - 1, psize[0]), numpy.linspace(0, n - 1, psize[1]), n - 1)
+                if err or got.shape != psize or not _near(got, exp, ZT, scale=max(1.0, float(numpy.abs(pa).max()))):
+                    chk.fail(key + "polynomial:default-order", "%s(p, %r) with the order left to its default (documented: 3) %s" % (
+                        entry, psize, ("raised " + err) if err else "differs from the degree-(3,3) polynomial p by %.3g"
+                        % (numpy.abs(got - exp).max() if got.shape == psize else float("nan"))), dict(rep, c=c.tolist(), psize=list(psize)))
+                else:
+                    g3, _ = _call(fn, pa, psize, 3)
+                    if g3 is not None and not numpy.array_equal(g3, got):
+                        chk.broke("correspondence", "%s(a, size) differs from %s(a, size, 3): the default order is not 3 (the model's default is 3)" % (entry, entry))
+            # --- float32 / other memory layouts: same-size and node clauses, and the same answer as for the C-ordered float64 copy
+            mx, my = rng.randint(1, 3), rng.randint(1, 3)
+            a32 = a.astype("float32")
+            for nm, arr in (("float32", a32), ) + tuple((k, _r5_layout(rng, a, (k,))[0]) for k in ("F", "strided", "reversed", "readonly")) + \
+                    (("float32:F", numpy.asfortranarray(a32)), ("big-endian", a.astype(">f8"))):
+                ref = numpy.array(arr, dtype=float)
+                tol = ZT
+                for size, sl, what in (((n, n), (slice(None), slice(None)), "same-size"),
+                                       ((mx * (n - 1) + 1, my * (n - 1) + 1), (slice(None, None, mx), slice(None, None, my)), "nodes")):
+                    got, err = _call(fn, arr, size, order)
+                    cc, errc = _call(fn, ref.copy(), size, order)
+                    if err or got.shape != size or not _near(numpy.asarray(got, dtype=float)[sl], ref, tol) or (errc is None and not _near(got, cc, tol)):
+                        chk.fail(key + what + ":" + nm, "%s(a, %r, order=%d) for a %dx%d %s array %s" % (
+                            entry, size, order, n, n, nm, ("raised " + err) if err else "differs from a at the old nodes by %.3g, from the result for the C-ordered float64 copy by %.3g"
+                            % (numpy.abs(numpy.asarray(got, dtype=float)[sl] - ref).max() if got.shape == size else float("nan"),
+                               numpy.abs(got - cc).max() if (errc is None and got.shape == cc.shape) else float("nan"))), dict(rep, layout=nm, size=list(size)))
+                        break
+            # --- decimation: a new grid that is a subset of the old nodes returns those samples (down to the corners / one sample)
+            ks = [k for k in range(1, n) if (n - 1) % k == 0]
+            kx, ky = rng.choice(ks), rng.choice(ks)
+            for size, sl in ((((n - 1) // kx + 1, (n - 1) // ky + 1), (slice(None, None, kx), slice(None, None, ky))), ((2, 2), (slice(None, None, n - 1), slice(None, None, n - 1))),
+                             ((1, 1), (slice(0, 1), slice(0, 1))), ((1, n), (slice(0, 1), slice(None)))):
+                got, err = _call(fn, a, size, order)
+                if err or got.shape != size or not _near(got, keep[sl], ZT):
+                    chk.fail(key + "nodes:decimated", "%s(a, %r, order=%d) for a %dx%d array (the new grid is a subset of the old nodes) %s" % (
+                        entry, size, order, n, n, ("raised " + err) if err else "has shape %s" % (got.shape,) if got.shape != size else
+                        "differs from the samples of a at those nodes by %.3g" % numpy.abs(got - keep[sl]).max()), dict(rep, size=list(size)))
+            if not numpy.array_equal(a, keep):
+                chk.fail(key + "mutates-input", "%s(a, size, order=%d) modified its input array (%dx%d)" % (entry, order, n, n), rep)
+    # --- arrays of 40 … 100 samples (phase screens are zoomed from 64 … 128 samples): nodes and polynomial clauses
+    worst = getattr(chk, "zoom_big_worst", {})
+    for it in range(6 if quick else 60):
+        for entry in ("zoom", "zoom_rbs"):
+            fn = getattr(ip, entry)
+            chk.oracle_cases += 1
+            order = (1, 3, 5)[it % 3]
+            n = rng.choice([40, 64, 65, 100]) if quick else rng.choice([40, 64, 65, 100, 128, 200])
+            nprng = numpy.random.default_rng(rng.getrandbits(32))
+            a = nprng.uniform(-1, 1, (n, n))
+            keep = a.copy()
+            mx, my = rng.randint(1, 3), rng.randint(1, 3)
+            chk.case(("oracle", "zoom5-big", entry, order, n, it))
+            chk.count("oracle:zoom5:big:%s:order%d" % (entry, order))
+            rep = {"case": "zoom5-big", "function": entry, "order": order, "n": n, "a": "numpy.random.default_rng(seed).uniform(-1, 1, (n, n))", "mx": mx, "my": my}
+            size = (mx * (n - 1) + 1, my * (n - 1) + 1)
+            got, err = _call(fn, a, size, order)
+            if err or got.shape != size or not _near(got[::mx, ::my], keep, ZT_BIG):
+                chk.fail("zoom:%s:nodes:big" % entry, "%s(a, %r, order=%d)[::%d, ::%d] for a %dx%d array %s" % (
+                    entry, size, order, mx, my, n, n, ("raised " + err) if err else "differs from a by %.3g" % (numpy.abs(got[::mx, ::my] - keep).max() if got.shape == size else float("nan"))), rep)
+            elif got.shape == size:
+                worst["nodes"] = max(worst.get("nodes", 0.0), float(numpy.abs(got[::mx, ::my] - keep).max()))
+            c = _poly(nprng, order)
+            grid = numpy.arange(n)
+            pa = _polyval(c, grid, grid, n - 1)
+            psize = (rng.randint(n + 1, 2 * n + 40), rng.randint(n // 2, 2 * n + 40))
+            got, err = _call(fn, pa, psize, order)
+            exp = _polyval(c, numpy.linspace(0, n - 1, psize[0]), numpy.linspace(0, n - 1, psize[1]), n - 1)
+            sc = max(1.0, float(numpy.abs(pa).max()))
+            if err or got.shape != psize or not _near(got, exp, ZT_BIG, scale=sc):
+                chk.fail("zoom:%s:polynomial:big" % entry, "%s of a degree-(%d,%d) polynomial sampled on %dx%d to %r %s" % (
+                    entry, order, order, n, n, psize, ("raised " + err) if err else "differs from the polynomial by %.3g"
+                    % (numpy.abs(got - exp).max() if got.shape == psize else float("nan"))), dict(rep, c=c.tolist(), psize=list(psize)))
+            else:
+                worst["polynomial"] = max(worst.get("polynomial", 0.0), float(numpy.abs(got - exp).max()) / sc)
+    chk.zoom_big_worst = worst
+    if worst:
+        chk.notes.append("zoom of 40…200-sample arrays: largest deviation at the old nodes %.3g, from the polynomial %.3g (tolerance %g)"
+                         % (worst.get("nodes", 0.0), worst.get("polynomial", 0.0), ZT_BIG))
+
+
+def oracle_round5_radial(chk, quick):
+    """azimuthal_average / encircled_energy on input classes the earlier sections never draw: image dtypes other than int64 / float64,
+    images in physical units (1e-200 … 1e300 for the average, 1e-30 … 1e30 for the encircled energy), sizes 64 … 257, other memory
+    layouts, the centre as tuple / array / NumPy scalars and on the image border, positional spelling; arguments left unchanged"""
+    _, psf, _ = _lib()
+    rng = chk.rng
+    # ---- azimuthal average
+    for it in range(40 if quick else 800):
+        chk.oracle_cases += 1
+        size = rng.randint(2, 33) if it % 8 else rng.choice([64, 128, 200, 255, 256, 257] if quick else [64, 128, 200, 255, 256, 257, 300, 512])
+        kind = ["float32", "uint8", "uint16", "int32", "big-endian", "huge", "tiny", "layout", "bool"][it % 9]
+        nprng = numpy.random.default_rng(rng.getrandbits(32))
+        if kind == "float32":
+            data, c = nprng.normal(0, 1, (size, size)).astype("float32"), float(numpy.float32(rng.uniform(-3, 3)))
+        elif kind in ("uint8", "uint16", "int32"):
+            hi = {"uint8": 255, "uint16": 65535, "int32": 2 ** 31 - 1}[kind]
+            data, c = nprng.integers(0, hi, (size, size), endpoint=True).astype(kind), float(rng.choice([1, 7, hi]))
+        elif kind == "big-endian":
+            data, c = nprng.normal(0, 1, (size, size)).astype(">f8"), rng.uniform(-3, 3)
+        elif kind == "huge":
+            m = rng.choice([1e100, 1e200, 1e300])
+            data, c = nprng.uniform(-1, 1, (size, size)) * m, m * rng.choice([-1.0, 1.0, 0.37])
+        elif kind == "tiny":
+            m = rng.choice([1e-100, 1e-200, 1e-290])
+            data, c = nprng.uniform(-1, 1, (size, size)) * m, m * rng.choice([-1.0, 1.0, 0.37])
+        elif kind == "bool":
+            data, c = nprng.random((size, size)) < 0.5, 1.0
+        else:
+            data, c = nprng.normal(0, 1, (size, size)), rng.uniform(-3, 3)
+        const = numpy.full((size, size), c).astype(data.dtype)
+        layout = "C"
+        if kind == "layout" or it % 5 == 0:
+            data, layout = _r5_layout(rng, data, ("F", "strided", "reversed", "readonly"))
+            const = _r5_layout(rng, const, (layout,))[0]
+        chk.case(("oracle", "azavg5", size, kind, layout, it))
+        chk.count("oracle:azavg5:" + kind)
+        chk.count("oracle:azavg5:layout:" + layout)
+        keep = numpy.array(data, copy=True)
+        check_azavg_bounds(chk, data, kind + ("/" + layout if layout != "C" else ""))
+        if not numpy.array_equal(keep, data):
+            chk.fail("azavg:mutates-input", "azimuthal_average modified its input (%dx%d %s, %s layout)" % (size, size, data.dtype, layout),
+                     {"case": "azavg-bounds", "function": "azimuthal_average", "size": size, "dtype": str(data.dtype), "data": keep.tolist()})
+        got, err = _call(psf.azimuthal_average, const)
+        rep = {"case": "azavg-const5", "function": "azimuthal_average", "size": size, "constant": c, "dtype": str(const.dtype), "layout": layout}
+        if err:
+            chk.fail("azavg:raises", "azimuthal_average(constant %r, %dx%d %s array) raised %s" % (c, size, size, const.dtype, err), rep)
+        elif got.shape != (size // 2,) or not _near(got, numpy.full(size // 2, float(c)), 1e-13, scale=abs(c)):
+            chk.fail("azavg:constant", "azimuthal_average of the constant %r on a %dx%d %s array (%s layout) is %s"
+                     % (c, size, size, const.dtype, layout, got.tolist()[:8]), rep)
+    # ---- azimuthal average, sizes the correspondence never reaches (it stops at 14 / 20 pixels): value i is the mean of the pixels
+    # whose centre lies in (i, i+1] of the array middle — integer images, integer geometry (4·d² = (2x+1-n)² + (2y+1-n)²), so
+    # each value is ONE correctly rounded division of two exact integers
+    for size in ([33, 64, 129, 200, 256, 257] if quick else [33, 47, 64, 96, 129, 200, 255, 256, 257, 300, 400, 512]):
+        for dt in ("int64", "float64", "uint16"):
+            chk.oracle_cases += 1
+            nprng = numpy.random.default_rng(rng.getrandbits(32))
+            vals = nprng.integers(0, 60000, (size, size), endpoint=True) if dt != "int64" else nprng.integers(-10 ** 6, 10 ** 6, (size, size))
+            data = vals.astype(dt)
+            k = 2 * numpy.arange(size, dtype=numpy.int64) + 1 - size
+            d2 = k[None, :] ** 2 + k[:, None] ** 2
+            want = numpy.empty(size // 2)
+            for i in range(size // 2):
+                ring = (d2 > (2 * i) ** 2) & (d2 <= (2 * i + 2) ** 2)
+                want[i] = float(int(vals[ring].sum())) / float(int(ring.sum()))
+            chk.case(("oracle", "azavg5-rings", size, dt))
+            chk.count("oracle:azavg5:ring-mean:" + ("large" if size > 33 else "small"))
+            got, err = _call(psf.azimuthal_average, data)
+            if err or got.shape != want.shape or not numpy.array_equal(got, want):
+                w = None if (err or got.shape != want.shape) else int(numpy.argwhere(got != want)[0][0])
+                chk.fail("azavg:ring-mean:large", "azimuthal_average(%dx%d %s image) %s" % (
+                    size, size, dt, ("raised " + err) if err else ("has shape %s" % (got.shape,)) if w is None else
+                    "[%d] = %r but the mean of the pixels with %d < distance <= %d from the middle is %r (%d of %d values differ)"
+                    % (w, float(got[w]), w, w + 1, float(want[w]), int((got != want).sum()), len(want))),
+                    {"case": "azavg-rings", "function": "azimuthal_average", "size": size, "dtype": dt,
+                     "data": "numpy.random.default_rng(seed).integers(...)" if size > 33 else data.tolist()})
+    # ---- encircled energy
+    for it in range(40 if quick else 800):
+        chk.oracle_cases += 1
+        dim = rng.randint(1, 16) if it % 8 else rng.choice([32, 64, 100, 128])
+        size = 2 * dim
+        kind = ["uint8", "uint16", "int32", "bright", "faint", "layout", "big-endian", "float-hdr"][it % 8]
+        nprng = numpy.random.default_rng(rng.getrandbits(32))
+        if kind in ("uint8", "uint16", "int32"):
+            hi = {"uint8": 255, "uint16": 65535, "int32": 2 ** 31 - 1}[kind]
+            data = nprng.integers(0, hi, (size, size), endpoint=True).astype(kind)
+            data[dim - 1, dim - 1] = hi
+        elif kind in ("bright", "faint"):             # physical units: the unit-scale image times 2^±40 … 2^±332 (1e±12 … 1e±100), exactly
+            unit = nprng.uniform(0, 1, (size, size)) ** 4
+            pw = rng.choice([40, 67, 100, 332]) * (1 if kind == "bright" else -1)
+            data = unit * 2.0 ** pw
+        elif kind == "big-endian":
+            data = (nprng.uniform(0, 1, (size, size)) ** 4).astype(">f8")
+        elif kind == "float-hdr":                     # a star core 1e12 times the wings
+            data = nprng.uniform(0, 1, (size, size))
+            data[rng.randrange(size), rng.randrange(size)] = 1e12
+        else:
+            data = nprng.uniform(0, 1, (size, size)) ** 4
+        # TODO(round 5): float32 images are NOT drawn — on the unchanged library encircled_energy(float32 image) normalises by a
+        # single-precision numpy.sum(data) and the curve exceeds 1 by up to ~1e-7 (reported as a suspected defect, not judged here)
+        layout = "C"
+        if kind == "layout" or it % 5 == 0:
+            data, layout = _r5_layout(rng, data, ("F", "strided", "reversed", "readonly"))
+        fr = rng.uniform(0.001, 0.999)
+        cm = ["default", "tuple", "ndarray", "numpy-scalars", "border", "int-ndarray"][it % 6]
+        centre = None
+        if cm in ("tuple", "ndarray", "numpy-scalars"):
+            centre = [rng.uniform(0, size), rng.uniform(0, size)] if rng.random() < 0.5 else [float(rng.randint(0, size)), float(rng.randint(0, size))]
+        elif cm == "border":                           # the centre on the border / in a corner of the image
+            centre = [rng.choice([0, size, dim]), rng.choice([0, size])]
+        elif cm == "int-ndarray":
+            centre = [rng.randint(0, size), rng.randint(0, size)]
+        chk.case(("oracle", "ee5", size, kind, layout, cm, fr, it))
+        chk.count("oracle:ee5:" + kind)
+        chk.count("oracle:ee5:centre:" + cm)
+        keep = numpy.array(data, copy=True)
+        check_ee(chk, data, fr, kind + ("/" + layout if layout != "C" else ""), centre)
+        rep = {"case": "ee5", "function": "encircled_energy", "size": size, "fraction": fr, "dtype": str(data.dtype), "layout": layout,
+               "centre": centre, "centre_form": cm, "data": keep.tolist() if size <= 32 else "omitted (size %d)" % size}
+        if not numpy.array_equal(keep, data):
+            chk.fail("ee:mutates-input", "encircled_energy modified its input image (%dx%d %s, %s layout)" % (size, size, data.dtype, layout), rep)
+        # the same call in other spellings gives the same curve and diameter
+        kw = {} if centre is None else {"center": list(centre)}
+        c0, e0 = _call(psf.encircled_energy, data, fraction=fr, eeDiameter=False, **kw)
+        d0, e1 = _call(psf.encircled_energy, data, fraction=fr, **kw)
+        if e0 or e1:
+            continue
+        if kind in ("bright", "faint"):
+            # a fraction of the total energy does not depend on the unit of the image: times a power of two every sum scales
+            # exactly, so the curve and the diameter are the same numbers (observed: bit-identical, quick seeds 0-15, thorough 0)
+            ulay = _r5_layout(rng, unit, (layout,))[0] if layout != "C" else unit
+            cu, eu = _call(psf.encircled_energy, ulay, fraction=fr, eeDiameter=False, **kw)
+            du, eu2 = _call(psf.encircled_energy, ulay, fraction=fr, **kw)
+            if eu or eu2 or not (numpy.array_equal(cu[0], c0[0]) and _near(c0[1], cu[1], 1e-12)) or float(du) != float(d0):
+                chk.fail("ee:scale:" + kind, "encircled_energy(2^%d * image) %s (%dx%d image, fraction %r, centre %r)" % (
+                    pw, "raised " + (eu or eu2) if (eu or eu2) else "differs from encircled_energy(image): curves differ by %.3g, diameters %r vs %r"
+                    % (float(numpy.abs(numpy.asarray(c0[1]) - numpy.asarray(cu[1])).max()) if numpy.asarray(c0[1]).shape == numpy.asarray(cu[1]).shape else float("nan"), d0, du),
+                    size, size, fr, centre), dict(rep, power_of_two=pw, data=unit.tolist() if size <= 32 else rep["data"], note="image = data * 2**power_of_two"))
+            else:
+                chk.ee_scale_worst = max(getattr(chk, "ee_scale_worst", 0.0), float(numpy.abs(numpy.asarray(c0[1]) - numpy.asarray(cu[1])).max()))
+        spell = [("eeDiameter=True", (data,), dict(fraction=fr, eeDiameter=True, **kw), "d"),
+                 ("positional", (data, fr, None if centre is None else list(centre), False), {}, "c"),
+                 ("numpy.float64 fraction", (data,), dict(fraction=numpy.float64(fr), **kw), "d")]
+        if centre is not None:
+            cobj = {"tuple": tuple(centre), "ndarray": numpy.array(centre, dtype=float), "numpy-scalars": [numpy.float64(centre[0]), numpy.float64(centre[1])],
+                    "border": tuple(centre), "int-ndarray": numpy.array(centre)}[cm]
+            ckeep = numpy.array(cobj, copy=True)
+            spell += [("center as " + cm, (data,), dict(fraction=fr, center=cobj, eeDiameter=False), "c"),
+                      ("center as " + cm, (data,), dict(fraction=fr, center=cobj), "d")]
+        else:
+            spell.append(("center=None", (data,), dict(fraction=fr, center=None, eeDiameter=False), "c"))
+        for nm, args, kws, what in spell:
+            got, err = _call(psf.encircled_energy, *args, **kws)
+            ok = not err and ((float(got) == float(d0)) if what == "d" else
+                              (isinstance(got, tuple) and len(got) == 2 and numpy.array_equal(got[0], c0[0]) and numpy.array_equal(got[1], c0[1])))
+            if not ok:
+                chk.fail("ee:argform:" + nm.split(" as ")[0].replace(" ", "-") + (":" + cm if " as " in nm else ""),
+                         "encircled_energy(%dx%d %s image, fraction=%r, centre %r) written with [%s] %s" % (
+                             size, size, kind, fr, centre, nm, ("raised " + err) if err else "gives another %s than the keyword / list spelling"
+                             % ("diameter (%r vs %r)" % (got, d0) if what == "d" else "curve")), dict(rep, spelling=nm))
+        if centre is not None and not numpy.array_equal(numpy.array(cobj), ckeep):
+            chk.fail("ee:mutates-input", "encircled_energy modified its center argument %r -> %r" % (ckeep.tolist(), numpy.array(cobj).tolist()), rep)
+
+
+def oracle_round5(chk, quick):
+    oracle_round5_bin(chk, quick)
+    oracle_round5_zoom(chk, quick)
+    oracle_round5_radial(chk, quick)
+    chk.notes.append("encircled energy of an image times 2^±40…2^±332 against the unit-scale image: largest curve difference %.3g "
+                     "(tolerance 1e-12)" % getattr(chk, "ee_scale_worst", 0.0))
+
+
 def replay(rec):
     """./check C16 --replay file : re-evaluate the recorded failing input on the real code (exit 1 while it still fails);
     a record without a concrete input (broken proof / correspondence) re-runs the recorded run"""
@@ -937,5 +1362,6 @@ def run(chk):
     oracle_zoom(chk, 40 if quick else 4000)
     oracle_azavg(chk, 80 if quick else 10000)
     oracle_ee(chk, 80 if quick else 6000)
+    oracle_round5(chk, quick)
     if not quick:
         exhaustive(chk)
